@@ -167,6 +167,31 @@ func monC20(c *drv.Ctx) {
 		cs.Count(l >= 1, cv.name, l)
 		cs.C.Obs("conversions checked", 1)
 	})
+	// strings and slices beyond 1 GiB (untouched zero pages: the memory is reserved, not used)
+	if !c.Slow() && c.Flavour != "asan" {
+		c.Stage("over-1GiB", int64(len(convs)), true, func(cs *drv.Case) {
+			cv := convs[cs.Idx]
+			n := 1<<30 + 4096
+			big := make([]byte, n)
+			big[0], big[n-1], big[1<<30] = 'a', 'z', 'm'
+			cs.Desc = M{"variant": cv.name, "len": n}
+			s := cv.b2s(big)
+			if len(s) != n || s[0] != 'a' || s[n-1] != 'z' || unsafe.StringData(s) != unsafe.SliceData(big) {
+				cs.Fail("binary-to-string-content", M{"variant": cv.name, "size": ">1GiB"}, M{"len": len(s)})
+				return
+			}
+			for _, sub := range []string{s, s[1:], s[:1<<30+1], s[4095:]} {
+				out := cv.s2b(sub)
+				if len(out) != len(sub) || cap(out) != len(sub) || unsafe.SliceData(out) != unsafe.StringData(sub) || out[len(out)-1] != sub[len(sub)-1] {
+					cs.Fail("string-to-binary-content", M{"variant": cv.name, "size": ">1GiB"}, M{"len": len(out), "cap": cap(out), "want": len(sub)})
+					return
+				}
+			}
+			cs.Count(true, cv.name, "1gib")
+			cs.C.Obs("conversions beyond 1 GiB", 1)
+		})
+	}
+
 	// nil / empty inputs
 	c.Stage("empty", int64(2*len(convs)*4), true, func(cs *drv.Case) {
 		cv := convs[cs.Idx%int64(len(convs))]
